@@ -376,7 +376,7 @@ def main(tier):
     chk.assumptions += [
         "the terminal is a model: coq/Model/C06_Terminal.v defines the VT100 subset (CUU/CUD/CUF/CUB, CR, LF, BS, EL, ED with background-colour-erase, SGR as opaque pen, ?7h/l, ?25h/l, CSI H); rows unbounded below the origin",
         "SGR strings are opaque pens; which attributes are invisible on a blank is read off the SGR parameters (bold/italic/hidden, and the foreground colour when nothing is drawn with it)",
-        "theorems are for cells of display width 1 and for configurations where the Screen default style '[transparent]' has no visible attribute; wide cells and other configurations are covered by correspondence + oracle only",
+        "theorems are for cells of display width 1; wide cells are covered by correspondence + oracle only",
         "cell texts are single code points (width 1 or 2) or the empty shadow cell; mouse support, cursor shapes, titles, alternate-screen buffer switching and terminal resize reflow are outside the model"]
     return chk.finish()
 
